@@ -185,3 +185,24 @@ def handover_pairing(ctx):
     skip_self = any(isinstance(x, ast.If) and 'self.name' in src(x.test) and '!=' in src(x.test) for x in body_walk(ac.node))
     ctx.check(skip_self, f'{ac.qualname}:does not deactivate itself', ac.node, '`if name != self.name` guards the deactivation',
               'taking over control deactivates the new controller itself', ac)
+
+
+@rule('C18.R5', min_instances=1)
+def struct_member_write_returns_the_struct_view(ctx):
+    """the generated write method of a struct member (combined read/write layout) returns the member as re-read after the
+    struct was written, not the requested value"""
+    m = ctx.m
+    sn = m.method('frappy.extparams.StructParam', '__set_name__', inherited=False)
+    ctx.analysed(sn)
+    wfs = [f for f in sn.nested.get('wfunc', [])]
+    if not wfs:
+        raise AnchorMissing('generated member write function of StructParam not found')
+    for wf in wfs:
+        p = wf.node.args.args[1].arg
+        writes = [c for c in calls_in(wf.node) if isinstance(c.func, ast.Call) and dotted(c.func.func) == 'getattr' and 'write' in src(c.func)]
+        for r in [n for n in body_walk(wf.node) if isinstance(n, ast.Return) and n.value is not None]:
+            raw = isinstance(r.value, ast.Name) and r.value.id == p
+            ctx.check(not raw and bool(writes), f'{wf.qualname}:returns the member as seen by the struct', r,
+                      f'returns `{src(r.value)}` after writing the struct',
+                      f'`return {src(r.value)}` hands the requested value back to the write wrapper, which caches and announces it: when the device '
+                      'clamps or rounds, the member parameter disagrees with the struct parameter', wf)
